@@ -862,6 +862,19 @@ struct FlatMirror
             exp = std::to_string(ms.count(I(1)));
         else if (op == "sclear")
             ms.clear();
+        else if (op == "msize")
+            exp = std::to_string(mm.size());
+        else if (op == "ssize")
+            exp = std::to_string(ms.size());
+        else if (op == "siter")
+        {
+            exp = "";
+            for (int k : ms)
+                exp += (exp.empty() ? "" : ",") + std::to_string(k);
+            if (exp.empty())
+                exp = "-";
+            o.tag(ms.size() >= 8 ? "set-iter-long" : "set-iter");
+        }
         std::string s = exp + " m=" + std::to_string(mm.size()) + ":";
         bool first = true;
         for (auto &kv : mm)
@@ -1201,14 +1214,17 @@ struct Gen
     }
 
     // ---------------- flat_map / flat_set
-    void flat(bool compat, int len, int keys)
+    void flat(bool compat, int len, int keys, int off = 0)
     {
         emit(std::string("reset flat ") + (compat ? "c" : "h"));
         for (int i = 0; i < len; i++)
         {
-            int k = (int)R.range(0, keys), v = (int)R.range(0, 99);
-            switch (R.below(14))
+            int k = (int)R.range(0, keys) - off, v = (int)R.range(0, 99);
+            switch (R.below(17))
             {
+            case 13: emit(R.chance(50) ? "msize" : "ssize"); break;
+            case 14: emit("siter"); break;
+            case 15: emit("sins " + S(k)); break;
             case 0: emit("mset " + S(k) + " " + S(v)); break;
             case 1: emit("mget " + S(k)); break;
             case 2: case 3: emit("mins " + S(k) + " " + S(v)); break;
@@ -1223,14 +1239,16 @@ struct Gen
             default:
                 if (R.chance(15))
                 {
-                    // duplicate-free initializer list (duplicates: see flat_init_dups)
+                    // initializer list, with duplicate keys in half of the cases (all 27 three-entry
+                    // patterns: see flat_init_dups)
                     int n = (int)R.range(0, 4);
+                    bool dups = R.chance(50);
                     std::vector<int> ks;
                     std::string s = "minit";
                     for (int j = 0; j < n; j++)
                     {
                         int kk;
-                        do kk = (int)R.range(0, keys + 4); while (std::find(ks.begin(), ks.end(), kk) != ks.end());
+                        do kk = (int)R.range(0, dups ? 2 : keys + 4) - off; while (!dups && std::find(ks.begin(), ks.end(), kk) != ks.end());
                         ks.push_back(kk);
                         s += " " + S(kk) + " " + S((int)R.range(0, 99));
                     }
@@ -1320,6 +1338,9 @@ static void gen(rng &r, const std::string &tier)
         g.flat_orders(c);
         for (int i = 0; i < (th ? 600 : 40); i++)
             g.flat(c, (int)r.range(20, 80), r.chance(50) ? 5 : 12);
+        // long bisections: up to 41 keys (negative ones included) in the set / the map
+        for (int i = 0; i < (th ? 150 : 10); i++)
+            g.flat(c, (int)r.range(80, 160), 40, 20);
     }
 }
 
